@@ -11,6 +11,7 @@ T obligations (all arithmetic flows through z3 Ints):
                      Parallel() resolved inside BatchedCalls.__call__ gets the nested backend.
 Lemma: ceil(q/p) >= 1 and <= q for integers 1 <= q,p <= 2^31 as IEEE doubles.
 """
+import os
 import types
 from typing import Optional
 
@@ -349,20 +350,26 @@ def ob_nested(level: int) -> bool:
     return H.verdict(ok, "nested backend of %s@%r is %r@%r" % (kind, level, type(nb).__name__, nb.nesting_level))
 
 
-def ob_nested_parallel(level: int) -> bool:
+HINTS = [{}, {"prefer": "threads"}, {"prefer": "processes"}, {"require": "sharedmem"},
+         {"prefer": "threads", "require": "sharedmem"}]    # processes + sharedmem is rejected as inconsistent (documented)
+
+
+def ob_nested_parallel(level: int, hint: int) -> bool:
     """
     pre: 0 <= level <= 2
+    pre: 0 <= hint <= 4
     post: _
     """
     H.enter()
     inner_n_jobs = H.P("inner_n_jobs")
     cpus = 4
     level = H.select(level, 0, 2)       # selector mode: the chain below has no symbolic data
+    hints = HINTS[H.select(hint, 0, 4)]   # soft / hard hints passed by the nested calls: never a reason to oversubscribe
     with H.native():
-        return H.verdict(_nested_chain(level, inner_n_jobs, cpus))
+        return H.verdict(_nested_chain(level, inner_n_jobs, cpus, hints))
 
 
-def _nested_chain(level, inner_n_jobs, cpus):
+def _nested_chain(level, inner_n_jobs, cpus, hints={}):
     import joblib._parallel_backends as pb
     import joblib.parallel as jp
     kind = H.P("backend")
@@ -371,7 +378,7 @@ def _nested_chain(level, inner_n_jobs, cpus):
     def task(depth):
         # what a Parallel() created inside a worker resolves to (without starting it), then what a
         # Parallel() created inside *its* tasks resolves to, and so on
-        inner = jp.Parallel(n_jobs=inner_n_jobs)
+        inner = jp.Parallel(n_jobs=inner_n_jobs, **hints)
         seen.append(inner._backend)
         if depth < 3:
             nested = inner._backend.get_nested_backend()
@@ -393,8 +400,8 @@ def _nested_chain(level, inner_n_jobs, cpus):
             ok = ok and inner_be.nesting_level == lvl
         ok = ok and not isinstance(inner_be, (pb.LokyBackend, pb.MultiprocessingBackend))
     if not ok:
-        H.note("inner Parallels under %s@%r got %s" % (
-            kind, level, [(type(b).__name__, getattr(b, "nesting_level", None)) for b in seen]))
+        H.note("inner Parallels %r under %s@%r got %s" % (
+            hints, kind, level, [(type(b).__name__, getattr(b, "nesting_level", None)) for b in seen]))
     return ok
 
 
@@ -410,7 +417,7 @@ def lemma_cgroup_ceil(params):
     if params.get("upper"):
         dom.append(z3.fpEQ(z3.fpRoundToIntegral(z3.RTZ(), q), q))
     s = z3.Solver()
-    s.set("timeout", 600000)
+    s.set("timeout", 60000 if params.get("upper") else 600000)
     s.add(*dom)
     sanity = str(s.check())
     c = z3.fpRoundToIntegral(z3.RTP(), z3.fpDiv(z3.RNE(), q, pp))
@@ -419,18 +426,58 @@ def lemma_cgroup_ceil(params):
     else:
         s.add(z3.Not(z3.fpGEQ(c, one)))
     r = str(s.check())
-    out = {"queries": 2, "solver_s": round(time.time() - t0, 2), "sanity": sanity}
+    out = {"queries": 2, "solver_s": round(time.time() - t0, 2), "sanity": sanity, "solver": "z3"}
+    args = None
+    if r == "sat":
+        m = s.model()
+        args = [float(z3.simplify(z3.fpToReal(m[x])).as_fraction()) for x in (q, pp)]
+    if r == "unknown":
+        # the division kernel stalls z3's bit-blaster: hand the same query (z3's own SMT-LIB rendering) to cvc5
+        r, args = _cvc5(s.to_smt2(), ["q", "p"], 800)
+        out.update(queries=3, solver="z3 (unknown after 60 s), then cvc5 binary", solver_s=round(time.time() - t0, 2))
     if r == "unsat":
         out["verdict"] = "confirmed"
     elif r == "sat":
-        m = s.model()
-
-        def val(x):
-            return float(z3.simplify(z3.fpToReal(m[x])).as_fraction())
-        out.update(verdict="counterexample", args=[val(q), val(pp)])
+        out.update(verdict="counterexample", args=args)
     else:
-        out.update(verdict="inconclusive", message="z3: " + r)
+        out.update(verdict="inconclusive", message="solver: " + r)
     return out
+
+
+def _cvc5(smt2, names, seconds):
+    """Run the cvc5 binary on an SMT-LIB text; returns (result, [float values of names] or None)."""
+    import re
+    import shutil
+    import struct
+    import subprocess
+    import tempfile
+    exe = shutil.which("cvc5")
+    if exe is None:
+        return "unknown (no cvc5 binary)", None
+    d = tempfile.mkdtemp(prefix="verif_lemma_")
+    try:
+        path = os.path.join(d, "q.smt2")
+        text = "(set-option :produce-models true)\n" + smt2.replace("(check-sat)", "") + "\n(check-sat)\n"
+        with open(path, "w") as f:
+            f.write(text)
+        p = subprocess.run([exe, "--tlimit=%d" % (seconds * 1000), path], capture_output=True, text=True, timeout=seconds + 60)
+        res = (p.stdout.strip().splitlines() or ["unknown"])[0].strip()
+        if "(error" in p.stdout or res not in ("sat", "unsat"):
+            return "unknown (%s)" % (p.stdout + p.stderr).strip()[:200], None
+        if res == "unsat":
+            return res, None
+        with open(path, "a") as f:
+            f.write("(get-value (%s))\n" % " ".join(names))
+        p = subprocess.run([exe, "--tlimit=%d" % (seconds * 1000), path], capture_output=True, text=True, timeout=seconds + 60)
+        vals = []
+        for n in names:
+            m = re.search(r"\(%s \(fp #b([01]) #b([01]+) #b([01]+)\)\)" % re.escape(n), p.stdout)
+            if not m:
+                return "unknown (cannot parse the cvc5 model: %s)" % p.stdout[:200], None
+            vals.append(struct.unpack(">d", int(m.group(1) + m.group(2) + m.group(3), 2).to_bytes(8, "big"))[0])
+        return "sat", vals
+    finally:
+        shutil.rmtree(d, ignore_errors=True)
 
 
 def lemma_cgroup_ceil_replay(q, p):
@@ -463,7 +510,7 @@ def obligations(tier, seed):
         for nj in (-1, 2):
             obs.append({"name": "nested_parallel/%s/inner%d" % (b, nj), "fn": "ob_nested_parallel",
                         "params": {"backend": b, "inner_n_jobs": nj}, "timeout": 120, "mode": "S",
-                        "bounds": "outer nesting level 0..2 symbolic, inner Parallel(n_jobs=%d), three levels deep" % nj})
+                        "bounds": "outer nesting level 0..2 symbolic, inner Parallel(n_jobs=%d) with prefer in {None, threads, processes} and require in {None, sharedmem}, three levels deep" % nj})
     obs.append({"name": "cpu_count", "fn": "ob_cpu_count", "timeout": 240,
                 "bounds": "os.cpu_count() None or 1..512, affinity 1..512 or absent, LOKY_MAX_CPU_COUNT -4..600 or "
                           "unset, cgroup limit 1..600 / 'max' / absent"})
